@@ -91,17 +91,42 @@ func Run(r *vr.Run, sh vr.ShardInfo, p *vr.Partial, c Config) {
 		if restarts > 100000 {
 			vr.Fatalf("caserun %s: too many restarts", c.Name)
 		}
+		// every process measures its budget from its own start: hand the child what is left of ours
+		rem := r.Remaining()
+		if rem <= 0 {
+			p.TimedOut = true
+			if f, err := os.Open(out); err == nil {
+				var ck ckpt
+				if err := gob.NewDecoder(f).Decode(&ck); err == nil && ck.P != nil {
+					p.Merge(ck.P)
+				}
+				_ = f.Close()
+			}
+			return
+		}
 		_ = os.WriteFile(progress, make([]byte, 8), 0o644)
 		ef, err := os.Create(errFile)
 		if err != nil {
 			vr.Fatalf("caserun: %v", err)
 		}
+		var args []string // our arguments without an explicit budget (the child gets the remaining budget through the environment)
+		for i := 1; i < len(os.Args); i++ {
+			a := strings.TrimLeft(os.Args[i], "-")
+			if a == "budget" {
+				i++
+				continue
+			}
+			if strings.HasPrefix(a, "budget=") {
+				continue
+			}
+			args = append(args, os.Args[i])
+		}
 		var cmd *exec.Cmd
 		if c.MemLimitKB > 0 {
 			script := fmt.Sprintf("ulimit -v %d; exec \"$0\" \"$@\"", c.MemLimitKB)
-			cmd = exec.Command("sh", append([]string{"-c", script, os.Args[0]}, os.Args[1:]...)...)
+			cmd = exec.Command("sh", append([]string{"-c", script, os.Args[0]}, args...)...)
 		} else {
-			cmd = exec.Command(os.Args[0], os.Args[1:]...)
+			cmd = exec.Command(os.Args[0], args...)
 		}
 		only := ""
 		if c.Only != nil {
@@ -112,7 +137,8 @@ func Run(r *vr.Run, sh vr.ShardInfo, p *vr.Partial, c Config) {
 			only = strings.Join(s, ",") + ","
 		}
 		cmd.Env = append(os.Environ(), envName+"="+c.Name, "CASERUN_PROGRESS="+progress, "CASERUN_OUT="+out, "CASERUN_SKIP="+skipFile,
-			"CASERUN_ONLY="+only, "CASERUN_DIR="+dir, fmt.Sprintf("VERIF_SHARD=%d/%d", sh.Index, max(sh.Count, 1)), "VERIF_SHARD_OUT=/dev/null", "GOMAXPROCS=2", "GOTRACEBACK=single")
+			"CASERUN_ONLY="+only, "CASERUN_DIR="+dir, fmt.Sprintf("VERIF_SHARD=%d/%d", sh.Index, max(sh.Count, 1)), "VERIF_SHARD_OUT=/dev/null", "GOMAXPROCS=2", "GOTRACEBACK=single",
+			fmt.Sprintf("VERIF_BUDGET_S=%d", max(1, int(rem.Seconds()))))
 		cmd.Stdout = nil
 		cmd.Stderr = ef
 		t0 := time.Now()
